@@ -298,6 +298,9 @@ func init() {
 		Gen: func(r *rand.Rand, tier string, idx int) Case {
 			o := defaultOpts()
 			o.keys = []string{"a", "b", "c", "k1", "x-y"}
+			if r.Intn(6) == 0 { // member names are not format strings
+				o.keys = []string{"a", "cpu%", "%d", "50%off", "k1"}
+			}
 			fresh := []string{"n1", "n2", "0", "zz"}
 			l := c08GenDoc(r, o)
 			switch idx % 8 {
